@@ -267,6 +267,15 @@ func (mbs *metadataPartStorage) AppendObject(ctx context.Context, bucketName sto
 			Parts:        allParts,
 		}
 
+		if existingObject != nil {
+			// In a versioning-enabled bucket the append is stored as a new
+			// version; it must carry over the metadata, tags and storage class
+			// of the version it extends.
+			updatedObject.Metadata = existingObject.Metadata
+			updatedObject.Tags = existingObject.Tags
+			updatedObject.StorageClass = existingObject.StorageClass
+		}
+
 		metaOpts := &metadatastore.AppendObjectOptions{}
 		metadataResult, err := mbs.metadataStore.AppendObject(ctx, tx.SqlTx(), bucketName, updatedObject, metaOpts)
 		if err != nil {
